@@ -24,7 +24,18 @@ Conventions
     the rest of the block duplicated in the fall-through arms.
   * `o.unwrap()` / `unwrap_or_else(|| panic!(..))` on a lookup ↦ `.getD default` (panic = outside the hypotheses).
 
+  * parameters: the binders are read from the Rust parameter list; a parameter the table does not know gets a binder from its
+    Rust type (bool / integers / f64 / String), so a NEW parameter changes the type of the generated definition (tie fails).
+  * `static` items (also in `thread_local!`): `NAME.with(|m| …)` is read as explicit state `NAME` (`borrow`/`borrow_mut` identities,
+    get / insert / remove / clear on an association list).  A function that touches one is reported `DIFFERS (new state)`: the
+    model's definition has no such argument/result; the alias is kept and the read body is put in a comment.
+  * f64 arithmetic on weights: `+`/`*`/0.0/1.0 are the semiring's; `-`, `/`, `abs`, `<`/`<=`, other literals, `f64::EPSILON` are fields of
+    an uninterpreted `R : CliAux.RealOps α`, an extra binder (the pristine tools need none).
+  * elaboration guard: when the generated text changed it is elaborated once (`lake env lean`); a definition on an error line falls
+    back to its alias (`UNTRANSLATED … does not elaborate`), repeated while callers break.
+
 Mapping table (trusted)
+  m.values() / m.keys() ↦ `m.map (·.2)` / `(·.1)`; it.all(p) / any(p) ↦ `List.all` / `List.any`; it.count() ↦ length; contains_key ↦ lookup.isSome
   VarLabel / usize / u64 / NodeIndex ↦ Nat; `VarLabel::new(x)`, `x.value()`, `as T`, `&x`, `*x`, `.clone()`, `.iter()`,
       `.collect()`, `.copied()`, `.as_ref()`, `.as_str()`, `.to_vec()`, `Box::new`, `Box::into_raw`, `Box::from_raw`,
       `serde_json::to_string` ↦ identities
@@ -63,7 +74,7 @@ OUT = os.path.join(ROOT, "lean", "RsddModel", "Model", "GenCli.lean")
 LEAN_KW = {"end", "at", "from", "fun", "open", "in", "do", "then", "else", "if", "match", "with", "let", "have", "show", "by",
            "where", "instance", "structure", "class", "def", "theorem", "namespace", "section", "variable", "universe",
            "import", "export", "local", "attribute", "Type", "Prop", "Sort", "mut", "for", "return", "at", "using", "calc"}
-IDENT_M = {"to_bytes", "iter", "into_iter", "collect", "clone", "as_ref", "copied", "cloned", "to_vec", "as_str", "as_bytes", "value",
+IDENT_M = {"borrow", "borrow_mut", "to_bytes", "iter", "into_iter", "collect", "clone", "as_ref", "copied", "cloned", "to_vec", "as_str", "as_bytes", "value",
            "value_usize", "to_owned", "to_string", "as_slice", "iter_mut", "as_mut", "cast"}
 SKIP_MACROS = {"println", "eprintln", "print", "eprint", "assert", "debug_assert", "dbg"}
 SKIP_LET_CALLS = {("Instant", "now")}
@@ -87,6 +98,7 @@ class Cx:
         self.hoist = []                   # [(name, lean Option expression)] pending binds
         self.n = 0
         self.labels = None
+        self.shared = {"R": False, "globals": [], "gnames": set()}   # shared by all forks of one function
 
     def fork(self):
         c = copy.copy(self)
@@ -104,6 +116,20 @@ class Cx:
         nm = self.fresh()
         self.hoist.append((nm, lean))
         return nm
+
+
+def real_lit(txt, cx):
+    """an f64 literal over the abstract semiring: 0.0 / 1.0 are `zero` / `one`, anything else is an uninterpreted constant"""
+    try:
+        v = float(txt)
+    except ValueError:
+        raise Untranslatable("float literal " + txt)
+    if v == 0.0:
+        return "%s.zero" % cx.real
+    if v == 1.0:
+        return "%s.one" % cx.real
+    cx.shared["R"] = True
+    return '(R.ofLit "%s")' % txt
 
 
 def sem_ops(cx, tag):
@@ -262,6 +288,8 @@ def block_value(e, cx):
 def ex(e, cx):
     k = e[0]
     if k == "num":
+        if "." in e[1]:
+            return real_lit(e[1], cx), "real"
         return e[1], "nat"
     if k == "bool":
         return ("true" if e[1] else "false"), "bool"
@@ -279,6 +307,9 @@ def ex(e, cx):
     if k == "path":
         if e[1] == ["None"] or e[1][-1] == "None":
             return "none", None
+        if len(e[1]) >= 2 and e[1][-2] == "f64" and e[1][-1] in ("EPSILON", "MAX", "MIN", "INFINITY", "NEG_INFINITY", "NAN"):
+            cx.shared["R"] = True
+            return ("R.eps" if e[1][-1] == "EPSILON" else '(R.ofLit "f64::%s")' % e[1][-1]), "real"
         raise Untranslatable("path %s" % "::".join(e[1]))
     if k == "un":
         if e[1] == "*" and e[2][0] == "var" and e[2][1] in getattr(cx, "ptrs", ()):
@@ -306,13 +337,27 @@ def ex(e, cx):
         a, ta = ex(e[2], cx)
         b, tb = ex(e[3], cx)
         if op in ("+", "-", "*", "/", "%"):
-            if ta in ("real", "ff", "poly", "cx"):
+            if "real" in (ta, tb):
+                if op == "+":
+                    return "(%s.add %s %s)" % (cx.real, a, b), "real"
+                if op == "*":
+                    return "(%s.mul %s %s)" % (cx.real, a, b), "real"
+                if op in ("-", "/"):
+                    cx.shared["R"] = True
+                    return "(R.%s %s %s)" % ("sub" if op == "-" else "div", a, b), "real"
+                raise Untranslatable("operator %s on reals" % op)
+            if ta in ("ff", "poly", "cx") or tb in ("ff", "poly", "cx"):
                 raise Untranslatable("semiring arithmetic")
             return "(%s %s %s)" % (a, op, b), "nat"
         if op in ("&&", "||"):
             return "(%s %s %s)" % (a, op, b), "bool"
         if op in ("==", "!="):
             return "(%s %s %s)" % (a, op, b), "bool"
+        if op in ("<", "<=", ">", ">=") and "real" in (ta, tb):
+            cx.shared["R"] = True
+            if op in (">", ">="):
+                a, b = b, a
+            return "(R.%s %s %s)" % ("lt" if op in ("<", ">") else "le", a, b), "bool"
         if op in ("<", "<=", ">", ">="):
             return "decide (%s %s %s)" % (a, {"<=": "≤", ">=": "≥"}.get(op, op), b), "bool"
         raise Untranslatable("operator " + op)
@@ -665,6 +710,14 @@ def list_like(t):
 
 def mcall(e, cx):
     recv, name, args = e[1], e[2], e[3]
+    if name == "with" and recv[0] == "var" and recv[1] in cx.shared["gnames"] and len(args) == 1 and args[0][0] == "closure" \
+            and len(args[0][1]) == 1 and args[0][1][0][0] == "pvar":
+        # a (thread-local) static: explicit state named after it
+        g = recv[1]
+        if g not in cx.shared["globals"]:
+            cx.shared["globals"].append(g)
+        cx.types[g] = "gmap"
+        return ex(subst(args[0][2], {args[0][1][0][1]: ("var", g)}), cx)
     b = builder_of(recv, cx)
     if b is not None:
         return builder_call(b, name, args, cx)
@@ -700,6 +753,24 @@ def mcall(e, cx):
         st = tr[1] if isinstance(tr, tuple) else None
         return "(%s %s)" % (r, ex(args[0], cx)[0]), ("tuple", [st, st])
     r, tr = ex(recv, cx)
+    if name == "abs" and not args and tr == "real":
+        cx.shared["R"] = True
+        return "(R.abs %s)" % r, "real"
+    if name in ("values", "keys", "into_values", "into_keys") and not args and tr in ("assoc_sn", "assoc_sw", "assoc_ns", "assoc_sb"):
+        el = elem_of(tr)[1]
+        i = 1 if "key" in name else 2
+        return "(%s.map (·.%d))" % (r, i), ("list", el[i - 1])
+    if name in ("all", "any") and len(args) == 1 and list_like(tr):
+        f, tf = closure_lean(args[0], cx, elem_of(tr))
+        return "(%s.%s %s)" % (r, name, f), "bool"
+    if name == "count" and not args and list_like(tr):
+        return "%s.length" % r, "nat"
+    if name == "contains_key" and len(args) == 1 and tr in ("assoc_sn", "assoc_ns", "assoc_sb", "assoc_sw", "gmap"):
+        return "(CliAux.lookup %s %s).isSome" % (r, ex(args[0], cx)[0]), "bool"
+    if name == "contains_key" and len(args) == 1 and isinstance(tr, tuple) and tr[0] == "table":
+        return "(%s %s).isSome" % (r, ex(args[0], cx)[0]), "bool"
+    if name == "get" and len(args) == 1 and tr == "gmap":
+        return "(CliAux.lookup %s %s)" % (r, ex(args[0], cx)[0]), ("opt", None)
     if name == "len" and not args:
         return "%s.length" % r, "nat"
     if name == "min" and len(args) == 1:
@@ -822,8 +893,12 @@ def assigned(stmts):
                 add(r)
         elif s[0] == "expr":
             e = s[1]
-            if e[0] == "mcall" and e[2] in ("insert", "push", "push_back") and e[1][0] == "var":
-                add(e[1][1])
+            if e[0] == "mcall" and e[2] in ("insert", "push", "push_back", "clear", "remove"):
+                rr = e[1]
+                while rr[0] == "mcall" and rr[2] in IDENT_M and not rr[3]:
+                    rr = rr[1]
+                if rr[0] == "var":
+                    add(rr[1])
             if e[0] in ("if",):
                 for t in e[2][1]:
                     walk(t)
@@ -957,13 +1032,34 @@ def seq(stmts, tail, cx, fin, value_needed=False, special=None):
         return for_loop(s, cont, cx)
     if k == "expr":
         e = s[1]
+        if e[0] == "mcall" and e[2] == "with" and e[1][0] == "var" and e[1][1] in cx.shared["gnames"] and len(e[3]) == 1 \
+                and e[3][0][0] == "closure" and len(e[3][0][1]) == 1 and e[3][0][1][0][0] == "pvar":
+            g = e[1][1]
+            if g not in cx.shared["globals"]:
+                cx.shared["globals"].append(g)
+            cx.types[g] = "gmap"
+            inner = subst(e[3][0][2], {e[3][0][1][0][1]: ("var", g)})
+            body_stmts = list(inner[1]) + ([("expr", inner[2])] if inner[2] is not None else []) if inner[0] == "block" else [("expr", inner)]
+            return seq(body_stmts + rest, tail, cx, fin, value_needed, special)
+        if e[0] == "mcall" and e[2] in ("insert", "push", "push_back", "clear", "remove"):
+            rr = e[1]
+            while rr[0] == "mcall" and rr[2] in IDENT_M and not rr[3]:
+                rr = rr[1]
+            if rr[0] == "var":
+                e = ("mcall", rr, e[2], e[3])
+        if e[0] == "mcall" and e[1][0] == "var" and e[2] in ("clear", "remove") and cx.types.get(e[1][1]) == "gmap":
+            x = e[1][1]
+            a = [ex(y, cx)[0] for y in e[3]]
+            new = "[]" if e[2] == "clear" else "(%s.filter fun p => !(p.1 == %s))" % (ln(x), a[0])
+            body = cont(cx)
+            return "let %s := %s\n  %s" % (ln(x), new, body[0]), body[1]
         if e[0] == "mcall" and e[1][0] == "var" and e[2] in ("insert", "push", "push_back") and e[1][1] not in cx.builders:
             x = e[1][1]
             tx = cx.types.get(x)
             a = [ex(y, cx)[0] for y in e[3]]
             if e[2] == "insert" and len(a) == 2 and isinstance(tx, tuple) and tx[0] == "table":
                 new = "(CliAux.Table.insert %s %s %s)" % (ln(x), a[0], a[1])
-            elif e[2] == "insert" and len(a) == 2 and tx in ("assoc_sn", "assoc_ns", "assoc_sb"):
+            elif e[2] == "insert" and len(a) == 2 and tx in ("assoc_sn", "assoc_ns", "assoc_sb", "gmap"):
                 new = "(CliAux.assocInsert %s %s %s)" % (ln(x), a[0], a[1])
             elif e[2] in ("push", "push_back") and len(a) == 1 and isinstance(tx, tuple) and tx[0] == "list":
                 new = "(%s ++ [%s])" % (ln(x), a[0])
@@ -1185,7 +1281,11 @@ def local_call(lean, prefix, callee_params, partial):
         if len(args) != len(names):
             raise Untranslatable("arity of the call of " + lean)
         a = [ex(x, cx)[0] for x, n in zip(args, names) if n not in FLAGS]
-        txt = "%s %s %s" % (lean, prefix, " ".join(a))
+        pre = prefix
+        if USES_R.get(lean):
+            cx.shared["R"] = True
+            pre = prefix + " R"
+        txt = "%s %s %s" % (lean, pre, " ".join(a))
         if partial:
             return cx.part(txt), None
         return "(" + txt + ")", None
@@ -1240,6 +1340,69 @@ def parse_tokens(toks):
     return e
 
 
+def typed_params(text):
+    """`a: T, mut b: &U` -> [(name, type text)]"""
+    out, depth, cur = [], 0, ""
+    for ch in text + ",":
+        if ch in "<([":
+            depth += 1
+        elif ch in ">)]":
+            depth -= 1
+        if ch == "," and depth == 0:
+            cur = cur.strip()
+            if cur:
+                nm, _, ty = cur.partition(":")
+                nm = re.sub(r"^(&\s*)?('[a-z_]+\s+)?(mut\s+)?", "", nm.strip()).strip()
+                out.append((nm, ty.strip()))
+            cur = ""
+        else:
+            cur += ch
+    return out
+
+
+PLAIN_TYPES = {"bool": ("Bool", "bool"), "usize": ("Nat", "nat"), "u64": ("Nat", "nat"), "u32": ("Nat", "nat"), "u128": ("Nat", "nat"),
+               "f64": ("α", "real"), "String": ("String", "str"), "&str": ("String", "str"), "&String": ("String", "str"),
+               "VarLabel": ("Nat", "nat")}
+
+
+def bind_params(ps, table, drop=FLAGS):
+    """binders and tags of a function from its Rust parameter list: the parameters of `table` keep the table's
+    Lean type; a parameter the table does not know gets a binder from its Rust type (bool / integer / f64 / String),
+    so a NEW parameter shows up as a definition of a different type.  Returns (binder text, tags, names)."""
+    known = {n: (t, g) for n, t, g in table}
+    out, tags, names = [], {}, []
+    for nm, ty in typed_params(ps):
+        if nm in drop or nm in ("self", "&self"):
+            continue
+        if nm in known:
+            t, g = known[nm]
+        elif ty.replace(" ", "") in PLAIN_TYPES or ty in PLAIN_TYPES:
+            t, g = PLAIN_TYPES.get(ty, PLAIN_TYPES.get(ty.replace(" ", "")))
+        else:
+            raise Untranslatable("parameter %s of a type without a model counterpart: %s" % (nm, ty))
+        out.append("(%s : %s)" % (ln(nm), t))
+        tags[nm] = g
+        names.append(nm)
+    return " ".join(out), tags, names
+
+
+def find_globals(src):
+    """names of `static` items (also inside `thread_local!`): state that outlives a call"""
+    return set(re.findall(r"\bstatic\s+(?:mut\s+)?([A-Z_][A-Z0-9_]*)\s*:", strip_comments(src)))
+
+
+USES_R = {}
+
+
+class Result:
+    """outcome of one translation: the body, the binders read from the source, what else it needs"""
+
+    def __init__(self, body, binders=None, extra="", cx=None):
+        self.body, self.binders, self.extra = body, binders, extra
+        self.R = bool(cx and cx.shared["R"])
+        self.globals = list(cx.shared["globals"]) if cx else []
+
+
 def check_params(ps, expected):
     got = [p for p in parse_params(ps) if p not in FLAGS]
     if got != expected:
@@ -1248,9 +1411,10 @@ def check_params(ps, expected):
 
 def tr_single_wmc(src):
     ps, body = find_fn(src, "single_wmc")
-    check_params(ps, [p[0] for p in SINGLE_PARAMS])
+    binders, tags, _ = bind_params(ps, SINGLE_PARAMS)
     ast = parse_body(body)
-    cx = Cx({p[0]: p[2] for p in SINGLE_PARAMS})
+    cx = Cx(tags)
+    cx.shared["gnames"] = find_globals(src)
     cx.partial_ok = True
     state = {"labels": None}
 
@@ -1281,30 +1445,38 @@ def tr_single_wmc(src):
         return "some out_", None
     txt, _ = seq(list(ast[1]), ast[2], cx, fin, False, special)
     txt = flush(cx, txt)
-    return txt, state["labels"]
+    return Result(txt, binders, "def singleWmcLabels : List String := [%s]\n" % ", ".join('"%s"' % x for x in state["labels"]), cx)
 
 
 def tr_partial_wmcs(src):
     ps, body = find_fn(src, "partial_wmcs")
-    check_params(ps, [p[0] for p in PARTIAL_PARAMS])
+    binders, tags, _ = bind_params(ps, PARTIAL_PARAMS)
     ast = parse_body(body)
-    cx = Cx({p[0]: p[2] for p in PARTIAL_PARAMS})
+    cx = Cx(tags)
+    cx.shared["gnames"] = find_globals(src)
     cx.partial_ok = True
     cx.local_fns = {"serialize_partial_model": lambda args, c: ("()", None)}
     txt, _ = seq(list(ast[1]), ast[2], cx, lambda c, v: ("some %s" % v[0], None), True)
-    return flush(cx, txt)
+    return Result(flush(cx, txt), binders, "", cx)
 
 
 def tr_total(src, name, params, hint=None, self_as="config", real="S", extra_types=None):
     ps, body = find_fn(src, name, hint)
     ast = parse_body(body)
-    cx = Cx({p[0]: p[2] for p in params}, real=real, self_as=self_as)
+    has_self = any(n in ("self", "&self") for n, _ in typed_params(ps))
+    binders, tags, _ = bind_params(ps, params)
+    if has_self:   # the fields of `self` that the table lists come first
+        selfp = [p for p in params if p[0].startswith(self_as + "_")]
+        binders = " ".join("(%s : %s)" % (p[0], p[1]) for p in selfp) + " " + binders
+        tags.update({p[0]: p[2] for p in selfp})
+    cx = Cx(tags, real=real, self_as=self_as)
+    cx.shared["gnames"] = find_globals(src)
     if extra_types:
         cx.types.update(extra_types)
     txt, _ = seq(list(ast[1]), ast[2], cx, lambda c, v: v, True)
     if cx.hoist:
         raise Untranslatable("partial call in a total function")
-    return txt
+    return Result(txt, binders, "", cx)
 
 
 def tr_wmc_main(src):
@@ -1313,6 +1485,7 @@ def tr_wmc_main(src):
     inputs = {"sexpr": "sexpr", "weights": "assoc_sw", "config_order": ("opt", ("list", "str")),
               "config_partials": ("opt", ("list", "assoc_sb"))}
     cx = Cx(inputs)
+    cx.shared["gnames"] = find_globals(src)
     cx.partial_ok = True
     callee = {}
     for nm, tbl in (("single_wmc", SINGLE_PARAMS), ("partial_wmcs", PARTIAL_PARAMS), ("generate_partial_assignments", GPA_PARAMS)):
@@ -1402,13 +1575,14 @@ def tr_wmc_main(src):
     def fin(c, v):
         raise Untranslatable("dispatch on `config.partials` not found")
     txt, _ = seq(list(ast[1]), ast[2], cx, fin, False, special)
-    return flush(cx, txt)
+    return Result(flush(cx, txt), None, "", cx)
 
 
 def tr_formula_main(src):
     ps, body = find_fn(src, "main")
     ast = parse_body(body)
     cx = Cx({"sexpr": "sexpr", "args_ordering": "str", "config": ("opt", "cfg1")})
+    cx.shared["gnames"] = find_globals(src)
     cx.partial_ok = True
     SKIP = {"args", "file", "config:top", "sexpr"}
     top = {"config": True}
@@ -1424,13 +1598,14 @@ def tr_formula_main(src):
             return fin(c, v)
         return None
     txt, _ = seq(list(ast[1]), ast[2], cx, lambda c, v: ("some %s" % v[0], None), False, special)
-    return flush(cx, txt)
+    return Result(flush(cx, txt), None, "", cx)
 
 
 def tr_cnf_main(src):
     ps, body = find_fn(src, "main")
     ast = parse_body(body)
     cx = Cx({"file": "str", "args_order": "str", "args_strategy": "str"})
+    cx.shared["gnames"] = find_globals(src)
     cx.partial_ok = True
 
     def special(s, rest, tail, c, fin):
@@ -1444,7 +1619,7 @@ def tr_cnf_main(src):
             return fin(c, v)
         return None
     txt, _ = seq(list(ast[1]), ast[2], cx, lambda c, v: ("some %s" % v[0], None), False, special)
-    return flush(cx, txt)
+    return Result(flush(cx, txt), None, "", cx)
 
 
 # ---------------------------------------------------------------------------------------------
@@ -1454,10 +1629,19 @@ def tr_cnf_main(src):
 def tr_ffi(src, name, types, real="S", ptrs=(), builders=None, fin=None, value_needed=True, partial=False, elem=None,
            local_fns=None, expect=None):
     ps, body = find_fn(src, name)
-    if expect is not None and parse_params(ps) != expect:
-        raise Untranslatable("parameter list %r (expected %r)" % (parse_params(ps), expect))
+    extra_b = ""
+    if expect is not None:
+        got = typed_params(ps)
+        missing = [n for n in expect if n not in [g[0] for g in got]]
+        if missing:
+            raise Untranslatable("parameter list %r (expected %r)" % ([g[0] for g in got], expect))
+        new = [(n, t) for n, t in got if n not in expect]
+        if new:   # a parameter the model's wrapper does not have: a binder from its Rust type
+            extra_b, tags, _ = bind_params(", ".join("%s: %s" % x for x in new), [])
+            types = dict(types, **tags)
     ast = parse_body(body)
     cx = Cx(types, real=real, builders=builders)
+    cx.shared["gnames"] = find_globals(src)
     cx.src = src
     cx.ptrs = set(ptrs)
     cx.partial_ok = partial
@@ -1471,7 +1655,9 @@ def tr_ffi(src, name, types, real="S", ptrs=(), builders=None, fin=None, value_n
         if not partial:
             raise Untranslatable("partial call in a total function")
         txt = flush(cx, txt)
-    return txt
+    r = Result(txt, None, "", cx)
+    r.extra_binders = extra_b
+    return r
 
 
 MGR = {"builder": {"lvl": "lvl", "varAt": "varAt", "st": "st", "fuel": "fuel", "numVars": "numVars"}}
@@ -1602,8 +1788,28 @@ def write_if_changed(path, text):
         open(path, "w").write(text)
 
 
+DIFF = "DIFFERS (new state): %s"
+
+
+def elaborate(path):
+    """[(line, message)] of the errors `lean` reports for the generated file; None if lean cannot be run"""
+    import subprocess
+    lean_dir = os.path.join(ROOT, "lean")
+    try:
+        r = subprocess.run(["lake", "env", "lean", os.path.relpath(path, lean_dir)], cwd=lean_dir, capture_output=True, text=True, timeout=600)
+    except (OSError, subprocess.SubprocessError):
+        return None
+    errs = []
+    for m in re.finditer(r"^[^\n]*GenCli\.lean:(\d+):\d+: error:? ?([^\n]*)", r.stdout + r.stderr, re.M):
+        errs.append((int(m.group(1)), m.group(2).strip()))
+    if r.returncode != 0 and not errs:
+        return None
+    return errs
+
+
 def main():
     FLAG_LOCALS.clear()
+    USES_R.clear()
     status = {}
     cache = {}
 
@@ -1617,55 +1823,118 @@ def main():
             raise Untranslatable(str(cache[rel]))
         return cache[rel]
 
-    def emit(key, lean, binders, thunk, fallback, post=None):
-        try:
-            body = thunk()
-            extra = ""
-            if isinstance(body, tuple):
-                body, extra = body
-            status[key] = "translated"
-            return "def %s %s :=\n  %s\n%s\n" % (lean, binders, body, extra)
-        except (Untranslatable, KeyError, IndexError, ValueError, TypeError, AttributeError, RecursionError, AssertionError) as e:
-            status[key] = UN % str(e).replace("\n", " ")
-            extra = post or ""
-            return "-- TRANSLATOR ROUTE NOT AVAILABLE for %s: %s\ndef %s %s :=\n  %s\n%s\n" % (
-                key, str(e).replace("\n", " ")[:300], lean, binders, fallback, extra)
+    entries = []   # dict(key, lean, prefix, table, thunk, fallback, post, alpha, ns)
+
+    def add(ns, key, lean, prefix, table, thunk, fallback, post="", alpha="α"):
+        entries.append(dict(ns=ns, key=key, lean=lean, prefix=prefix, table=table, thunk=thunk, fallback=fallback, post=post,
+                            alpha=alpha, forced=None))
 
     WMC, FORM, CNF = "bin/weighted_model_count.rs", "bin/bottomup_formula_to_bdd.rs", "bin/bottomup_cnf_to_bdd.rs"
     sp = lambda ps: " ".join("(%s : %s)" % (ln(n), t) for n, t, _ in ps)  # noqa: E731
-    text = HEADER + "namespace Gen.Cli\nopen _root_.Bdd\n\n"
-
-    def single():
-        body, labels = tr_single_wmc(read(WMC))
-        return body, "def singleWmcLabels : List String := [%s]\n" % ", ".join('"%s"' % x for x in labels)
-    text += emit("weighted_model_count::single_wmc", "singleWmcOut", CLI_B + " " + sp(SINGLE_PARAMS), single,
-                 "CliAux.singleWmcOut C fuel S P expr num_vars order params",
-                 "def singleWmcLabels : List String := CliAux.singleWmcLabels\n")
-    text += emit("weighted_model_count::partial_wmcs", "partialWmcs", CLI_B + " " + sp(PARTIAL_PARAMS),
-                 lambda: tr_partial_wmcs(read(WMC)), "CliAux.partialWmcs C fuel S P expr num_vars order params partials inverse_mapping")
-    text += emit("weighted_model_count::Config::to_var_order", "toVarOrder", sp(TVO_PARAMS),
-                 lambda: tr_total(read(WMC), "to_var_order", TVO_PARAMS, r"impl\s+Config"), "CliAux.toVarOrder config_order mapping")
-    text += emit("weighted_model_count::generate_partial_assignments", "generatePartialAssignments", sp(GPA_PARAMS),
-                 lambda: tr_total(read(WMC), "generate_partial_assignments", GPA_PARAMS),
-                 "CliAux.generatePartialAssignments partials inverse_mapping num_vars")
-    text += emit("weighted_model_count::main", "wmcMain",
-                 CLI_B + " (sexpr : Ser.LogicalSExpr) (weights : List (String × (α × α))) (config_order : Option (List String)) "
-                         "(config_partials : Option (List (List (String × Bool))))",
-                 lambda: tr_wmc_main(read(WMC)), "CliAux.wmcMain C fuel S P sexpr weights config_order config_partials")
-    text += emit("bottomup_formula_to_bdd::main", "formulaMain",
-                 "(C : Bdd.CacheImpl) (fuel : Nat) (args_ordering : String) (config : Option (Option (List String))) (sexpr : Ser.LogicalSExpr)",
-                 lambda: tr_formula_main(read(FORM)), "CliAux.formulaMain C fuel args_ordering config sexpr")
-    text += emit("bottomup_cnf_to_bdd::main", "cnfMain",
-                 "(C : Bdd.CacheImpl) (fuel : Nat) (args_order args_strategy : String) (file : String) (cnf_num_vars : Nat)",
-                 lambda: tr_cnf_main(read(CNF)), "CliAux.cnfMain C fuel args_order args_strategy file cnf_num_vars")
-    text += "end Gen.Cli\n\nnamespace Gen.FfiMore\nopen _root_.Bdd\n\n"
+    add("Cli", "weighted_model_count::single_wmc", "singleWmcOut", CLI_B, sp(SINGLE_PARAMS), lambda: tr_single_wmc(read(WMC)),
+        "CliAux.singleWmcOut C fuel S P expr num_vars order params",
+        "def singleWmcLabels : List String := CliAux.singleWmcLabels\n")
+    add("Cli", "weighted_model_count::partial_wmcs", "partialWmcs", CLI_B, sp(PARTIAL_PARAMS), lambda: tr_partial_wmcs(read(WMC)),
+        "CliAux.partialWmcs C fuel S P expr num_vars order params partials inverse_mapping")
+    add("Cli", "weighted_model_count::Config::to_var_order", "toVarOrder", "", sp(TVO_PARAMS),
+        lambda: tr_total(read(WMC), "to_var_order", TVO_PARAMS, r"impl\s+Config"), "CliAux.toVarOrder config_order mapping")
+    add("Cli", "weighted_model_count::generate_partial_assignments", "generatePartialAssignments", "", sp(GPA_PARAMS),
+        lambda: tr_total(read(WMC), "generate_partial_assignments", GPA_PARAMS),
+        "CliAux.generatePartialAssignments partials inverse_mapping num_vars")
+    add("Cli", "weighted_model_count::main", "wmcMain", CLI_B,
+        "(sexpr : Ser.LogicalSExpr) (weights : List (String × (α × α))) (config_order : Option (List String)) "
+        "(config_partials : Option (List (List (String × Bool))))",
+        lambda: tr_wmc_main(read(WMC)), "CliAux.wmcMain C fuel S P sexpr weights config_order config_partials")
+    add("Cli", "bottomup_formula_to_bdd::main", "formulaMain", "(C : Bdd.CacheImpl) (fuel : Nat)",
+        "(args_ordering : String) (config : Option (Option (List String))) (sexpr : Ser.LogicalSExpr)",
+        lambda: tr_formula_main(read(FORM)), "CliAux.formulaMain C fuel args_ordering config sexpr", alpha=None)
+    add("Cli", "bottomup_cnf_to_bdd::main", "cnfMain", "(C : Bdd.CacheImpl) (fuel : Nat)",
+        "(args_order args_strategy : String) (file : String) (cnf_num_vars : Nat)",
+        lambda: tr_cnf_main(read(CNF)), "CliAux.cnfMain C fuel args_order args_strategy file cnf_num_vars", alpha=None)
     fns = ffi_fns(read)
-    # from_c_parts first: the other polynomial helpers call it
-    fns.sort(key=lambda f: 0 if f[1] == "from_c_parts" else 1)
+    fns.sort(key=lambda f: 0 if f[1] == "from_c_parts" else 1)   # the other polynomial helpers call it
     for file, rust, lean, binders, thunk, fb in fns:
-        text += emit("%s::%s" % (file.split("/")[-1][:-3], rust), lean, binders, thunk, fb)
-    text += "end Gen.FfiMore\n"
-    write_if_changed(OUT, text)
+        alpha = "α" if "{α : Type}" in binders else ("Rat" if rust == "robdd_model_count" else None)
+        add("FfiMore", "%s::%s" % (file.split("/")[-1][:-3], rust), lean, "", binders, thunk, fb, alpha=alpha)
+
+    # 1. translate
+    for e in entries:
+        try:
+            r = e["thunk"]()
+            if not isinstance(r, Result):
+                r = Result(r)
+            e["result"] = r
+            if r.R:
+                USES_R[e["lean"]] = True
+        except (Untranslatable, KeyError, IndexError, ValueError, TypeError, AttributeError, RecursionError, AssertionError) as ex_:
+            e["result"] = None
+            e["error"] = str(ex_).replace("\n", " ")
+
+    # 2. render (and re-render while a generated definition does not elaborate)
+    def render():
+        lines_of = []
+        text = HEADER
+        cur = None
+        for e in entries:
+            if e["ns"] != cur:
+                if cur:
+                    text += "end Gen.%s\n\n" % cur
+                text += "namespace Gen.%s\nopen _root_.Bdd\n\n" % e["ns"]
+                cur = e["ns"]
+            r = e["result"]
+            tbl_binders = " ".join(x for x in (e["prefix"], e["table"]) if x)
+            if e["forced"] or r is None:
+                why = e["forced"] or e["error"]
+                status[e["key"]] = UN % why
+                chunk = "-- TRANSLATOR ROUTE NOT AVAILABLE for %s: %s\ndef %s %s :=\n  %s\n%s\n" % (
+                    e["key"], why[:300], e["lean"], tbl_binders, e["fallback"], e["post"])
+            elif r.globals:
+                status[e["key"]] = DIFF % ("static %s (state that outlives the call; read and/or written by the function; the model's "
+                                           "definition has no such argument or result)" % ", ".join(r.globals))
+                body = "\n".join("--   " + x for x in r.body.splitlines())
+                chunk = "-- DIFFERS (new state) %s: the source was read, it threads the static(s) %s:\n%s\ndef %s %s :=\n  %s\n%s\n" % (
+                    e["key"], ", ".join(r.globals), body, e["lean"], tbl_binders, e["fallback"], e["post"])
+            else:
+                status[e["key"]] = "translated"
+                pre = e["prefix"]
+                tab = r.binders if r.binders is not None else e["table"]
+                if getattr(r, "extra_binders", ""):
+                    tab = tab + " " + r.extra_binders
+                rb = ""
+                if r.R:
+                    if not e["alpha"]:
+                        status[e["key"]] = UN % "f64 arithmetic in a function without weights"
+                    rb = "(R : CliAux.RealOps %s)" % (e["alpha"] or "Rat")
+                if pre:
+                    b = " ".join(x for x in (pre, rb, tab) if x)
+                else:   # no model prefix: after the leading implicit / semiring binders of the table
+                    m = re.match(r"((?:\{[^}]*\}\s*|\(S : SROps α\)\s*|\(M : Nat\)\s*|\(P : Nat\)\s*)*)(.*)", tab, re.S)
+                    b = " ".join(x for x in (m.group(1).strip(), rb, m.group(2)) if x)
+                chunk = "def %s %s :=\n  %s\n%s\n" % (e["lean"], b, r.body, r.extra)
+            start = text.count("\n") + 1
+            text += chunk
+            lines_of.append((start, text.count("\n"), e))
+        text += "end Gen.%s\n" % cur
+        return text, lines_of
+
+    text, lines_of = render()
+    old = open(OUT).read() if os.path.exists(OUT) else None
+    if old != text:
+        for _ in range(5):
+            open(OUT, "w").write(text)
+            errs = elaborate(OUT)
+            if not errs:
+                break
+            progress = False
+            for ln_, msg in errs:
+                for a, b, e in lines_of:
+                    if a <= ln_ <= b and not e["forced"] and e["result"] is not None and not e["result"].globals:
+                        e["forced"] = "the generated definition does not elaborate: " + msg[:200]
+                        progress = True
+            if not progress:
+                break
+            text, lines_of = render()
+        write_if_changed(OUT, text)
     return status
 
 
